@@ -86,7 +86,8 @@ def r_C12b(root):
     vis = find_i(root, R, "RRELVisitor.visit_string_value"); rep = find_i(root, R, "RRELNavigation.__repr__")
     fns_rep = {k_: v_ for k_, v_ in helper_functions(root, R, "RRELNavigation.__repr__").items() if not k_.startswith("__")}
     words = []
-    for n in range(2, 6):
+    from sa import util as _u
+    for n in range(2, 7 if _u.TIER == "thorough" else 6):
         for tup in itertools.product("a\\'\"", repeat=n):
             w = "".join(tup)
             if any(_accepts(a, w) for a in nfas): words.append(w)
@@ -132,7 +133,7 @@ def r_C12b(root):
     if bad2:
         for pr in ("C32", "C12"): out.append(Finding(pr, "C12.e", L, "TextXVisitor.visit_string_value", "string literal %s" % bad2[0], "the literal %s %s: an RREL expression written in a grammar and the same expression registered as a string select different objects" % bad2, witness="ref=[T|ID|'a\\'b'~items] in the grammar vs. rrel.parse of the same text"))
     inst += len(words)
-    ob("C12", "C12.e", R, "RRELVisitor.visit_string_value / RRELNavigation.__repr__", "fixed names round-trip for %d of %d literals up to length 5" % (n_ok, len(words)), bad is None)
+    ob("C12", "C12.e", R, "RRELVisitor.visit_string_value / RRELNavigation.__repr__", "fixed names round-trip for %d of %d literals up to length %d" % (n_ok, len(words), 6 if _u.TIER == "thorough" else 5), bad is None)
     if bad: out.append(Finding("C12", "C12.e", R, "RRELNavigation.__repr__", "fixed-name literal %s" % bad[0], bad[1] + ": the printed expression does not re-parse to an equivalent expression", witness="%s~a" % bad[0]))
     return inst, out
 
